@@ -21,6 +21,10 @@ def check(chk, thorough=False):
     chk.run('C09.h', 'R-GUARD', 'a transfer already in progress keeps sending its segments while terminating', lambda ob: c09h(tree, ob), floor=1)
     chk.run('C09.k', 'R-FLOW', 'the idle time that ends a silent terminating session is the configured one, not derived from the negotiated keepalive (= C14.a)', lambda ob: __import__('sa.props.c14', fromlist=['c14a']).c14a(tree, ob), floor=3)
     chk.run('C09.l', 'R-GUARD', 'transfers under way finish while terminating: no handler of XFER_SEGMENT / XFER_ACK / XFER_REFUSE refuses its message because SESS_TERM was sent or received', lambda ob: c09l(tree, ob), floor=4)
+    chk.run('C09.m', 'R-ITER', 'closing completes and reports every transfer: no loop of the session code changes the size of the container it iterates (= C14.f)', lambda ob: __import__('sa.props.common', fromlist=['iter_mutation']).iter_mutation(tree, ob, ['tcpcl/session.py', 'tcpcl/agent.py']), floor=1)
+    chk.run('C09.n', 'R-WHO', 'every end of the connection runs the whole close: close() is called on self (so that the session and bus layers do their part), an explicit <Class>.close(self) only chains upwards from a close() of a subclass', lambda ob: c09n(tree, ob), floor=3)
+    chk.run('C09.o', 'R-NOPATH', 'an endpoint that is terminating and hears nothing more closes when the idle time is up, whatever is still queued or unacknowledged', lambda ob: c09o(tree, ob), floor=1)
+    chk.run('C09.p', 'R-ESCAPE', 'a SESS_TERM with any reason code is recorded: the handlers do not look peer values up in an enumeration unguarded (= C17.a, enumeration clause)', lambda ob: __import__('sa.props.c17', fromlist=['peer_enum_lookups']).peer_enum_lookups(tree, ob), floor=1)
     chk.run('C09.i', 'R-GUARD', 'the idle indication that gates the close covers transfers, queues and every octet buffer down to the socket (= C18.d)', lambda ob: _c18d(tree, ob), floor=6)
     chk.run('C09.j', 'R-PAIR', 'timers of a terminating endpoint: own transmissions do not defer the idle close, the SESS_TERM arms it (= C14.d)', lambda ob: _c14d(tree, ob), floor=4)
     chk.run('C09.g', 'R-ITER', 'agent stop/shutdown loops are not invalidated by the handlers they close and do not skip handlers', lambda ob: c09g(tree, ob), floor=2)
@@ -520,3 +524,45 @@ def c09l(tree, ob):
                 else:
                     ob.site(SESS, r, '{}.{}: refusal does not depend on termination'.format(cname, mname))
     ob.require(n >= 4, 'refusals in the transfer handlers: {}'.format(n))
+
+
+
+def c09n(tree, ob):
+    ''' Connection.close() only releases the sockets.  Reporting cut-off transfers, stopping timers and leaving the bus are
+    done by the overrides in Messenger and ContactHandler, which chain upwards explicitly.  Any other explicit
+    Connection.close(self) / Messenger.close(self) bypasses them: e.g. on peer EOF the held bundles are never reported and the
+    object stays on the bus. '''
+    order = ['Connection', 'Messenger', 'ContactHandler']
+    n = 0
+    for cname in order:
+        cls = tree.klass(SESS, cname)
+        for m in [x for x in cls.body if isinstance(x, ast.FunctionDef)]:
+            for c in calls_in(m):
+                if not (isinstance(c.func, ast.Attribute) and c.func.attr == 'close'):
+                    continue
+                recv = src(c.func.value)
+                if recv in order and c.args and src(c.args[0]) == 'self':
+                    n += 1
+                    if m.name == 'close' and order.index(recv) < order.index(cname):
+                        ob.site(SESS, c, '{}.close chains up to {}.close'.format(cname, recv))
+                    else:
+                        ob.violate(SESS, '{}.{}'.format(cname, m.name), src(c), 'the connection is closed through {}.close directly: the close() of the session and bus layers is skipped, so transfers '
+                                   'that were cut off are not reported, timers stay armed and the contact object stays registered'.format(recv), c)
+                elif recv == 'self':
+                    n += 1
+                    ob.site(SESS, c, '{}.{}: self.close()'.format(cname, m.name))
+    ob.require(n >= 3, 'close() call sites: {}'.format(n))
+
+
+def c09o(tree, ob):
+    fv = FuncView(tree, SESS, 'Messenger._idle_timeout')
+    conds = [n for n in fv.cfg.nodes if n.kind == 'cond' and src(n.ast) == 'self._in_term']
+    c = one(conds, 'if self._in_term in _idle_timeout', ob)
+    tsucc = [s_ for (s_, lab) in c.succ if lab is True][0]
+    closes = method_calls(fv.func, 'close', 'self')
+    ok = closes and (fv.cfg.must_pass(tsucc, fv.cfg.exit, {fv.node(x) for x in closes}, include_exc=False)[0] or tsucc in {fv.node(x) for x in closes})
+    if ok:
+        ob.site(SESS, closes[0], 'idle time up while terminating => close, unconditionally')
+    else:
+        ob.violate(SESS, fv.qual, 'if self._in_term: ... self.close()', 'a terminating endpoint whose idle time is up can decide not to close (e.g. because something is still queued or unacknowledged): '
+                   'with a silent peer it never closes and never reports what was not sent', c.ast)
